@@ -6,6 +6,8 @@ CONSTANTS
   Rules1 <- R1
   Rules2 <- R2
   MaxFacts = 1
+  MinFacts = 0
+  AllowOverlap = FALSE
   Randomized = FALSE
 INVARIANT Emit
 CHECK_DEADLOCK FALSE
